@@ -104,7 +104,7 @@ def glue_fce(idx: int, f0: bool, f1: bool, f2: bool) -> bool:
 
 
 def _glue(idx, f0, f1, f2) -> bool:
-    idx = xs.R(idx)
+    idx = xs.pick(idx, LO, HI)
     with xs.nt():
         code, variant, alpha_code, yv = cases()[idx]
         spelling, brackets, dup = VARIANTS[variant]
